@@ -909,6 +909,54 @@ func enumerateRules(c *hx.Ctx, k int) {
 	rec(nil)
 }
 
+// exhaustive host:port grammar: every string of <= n characters over a 7-letter alphabet as the request host against
+// a fixed configuration, and every string of <= m characters as a single configured domain probed by a few hosts
+// (validates the model of net.SplitHostPort / splitHostPortGraceful and of the domain classification)
+func enumerateGrammar(c *hx.Ctx, n, m int) {
+	alpha := []byte("a:[].*8")
+	var words func(k int) []string
+	words = func(k int) []string {
+		if k == 0 {
+			return []string{""}
+		}
+		var out []string
+		for _, w := range words(k - 1) {
+			out = append(out, w)
+			if len(w) == k-1 {
+				for _, ch := range alpha {
+					out = append(out, w+string(ch))
+				}
+			}
+		}
+		return out
+	}
+	fixed := []vhost{
+		{domains: []string{"a"}, rules: []rule{{}}}, {domains: []string{"a:8"}, rules: []rule{{}}},
+		{domains: []string{"*.a", "*:8"}, rules: []rule{{}}}, {domains: []string{"[::]:8", "[a]"}, rules: []rule{{}}},
+		{domains: []string{"*a:*", "."}, rules: []rule{{}}}, {domains: []string{"*"}, rules: []rule{{}}},
+	}
+	b := buildReal(fixed)
+	for _, w := range words(n) {
+		rq := request{vars: map[string]*string{types.VarHost: sp(w)}, hdrs: map[string]string{}}
+		emit(c, "gh", fixed, b, rq)
+	}
+	c.Count("grammar.hosts")
+	probes := []string{"a", "a:8", "aa:8", "[a]:8", ".a", "8.a:8"}
+	for _, w := range words(m) {
+		vhs := []vhost{{domains: []string{w}, rules: []rule{{}}}, {domains: []string{"*:*"}, rules: []rule{{}}}}
+		bb := buildReal(vhs)
+		ps := probes
+		if bb.err != "" {
+			ps = probes[:1]
+		}
+		for _, pr := range append([]string{w}, ps...) {
+			rq := request{vars: map[string]*string{types.VarHost: sp(pr)}, hdrs: map[string]string{}}
+			emit(c, "gd", vhs, bb, rq)
+		}
+	}
+	c.Count("grammar.domains")
+}
+
 func Run(c *hx.Ctx) {
 	// the router logs every failed match at ERROR level: keep the run quiet
 	mlog.DefaultLogger.SetLogLevel(plog.FATAL)
@@ -922,9 +970,11 @@ func Run(c *hx.Ctx) {
 	if !c.Thorough() {
 		enumerate(c, 2)
 		enumerateRules(c, 2)
+		enumerateGrammar(c, 3, 2)
 	} else if c.Seed%1000 == 0 {
 		enumerate(c, 4)
 		enumerateRules(c, 3)
+		enumerateGrammar(c, 5, 4)
 	}
 	nCfg := c.N(450, 12000)
 	for i := 0; i < nCfg; i++ {
